@@ -27,7 +27,7 @@ logging.getLogger("onnx_ir").setLevel(logging.CRITICAL)
 PROPERTY = "C14"
 LEVEL = "exploration"
 TIERS = {
-    "quick": {"wall": 36, "optimize_wall": 9, "chunk": 20, "shrink_budget": 250, "shrink_wall": 60},
+    "quick": {"max_runs": 3200, "optimize_runs": 640, "wall": 420, "optimize_wall": 180, "chunk": 20, "shrink_budget": 250, "shrink_wall": 60},
     "thorough": {"wall": 900, "optimize_wall": 120, "chunk": 50, "shrink_budget": 500, "shrink_wall": 240},
 }
 RULE = (
